@@ -154,3 +154,45 @@ fn kani_failed_read_seek_callback_is_error() {
     assert!(i.seek(std::io::SeekFrom::Start(kani::any())).is_err());
     assert!(i.seek(std::io::SeekFrom::End(kani::any())).is_err());
 }
+
+/// the read adapter hands on what the callback delivered: the count it reports is the total the callback reported, and the bytes it
+/// leaves in the caller's buffer are the callback's bytes IN ORDER (call k marks what it writes with k) -- whatever short counts the
+/// callback reports (C13/C20: a source that delivers in pieces gives the same archive). On the unchanged tree the adapter is loop-free
+/// (one call): complete. The unwinding bound only matters for a changed adapter that calls the callback repeatedly.
+static mut RCB_CALLS: u8 = 0;
+static mut RCB_COUNTS: [u32; 8] = [0; 8];
+extern "C" fn rcb_some(b: *mut u8, l: u32, _c: *mut c_void, r: *mut u32) -> i32 {
+    let n: u32 = kani::any();
+    kani::assume(n <= l && n <= 4);
+    unsafe {
+        RCB_CALLS += 1;
+        let k = RCB_CALLS;
+        if (k as usize) < 8 { RCB_COUNTS[k as usize] = n; }
+        let mut i = 0u32;
+        while i < n { *b.add(i as usize) = k; i += 1; }
+        *r = n;
+    }
+    0
+}
+#[kani::proof]
+#[kani::unwind(7)]
+fn kani_read_callback_bytes_are_passed_on_in_order() {
+    let mut i = CallbackInputRead { read_callback: rcb_some, seek_callback: Some(scb), context: null_mut() };
+    let mut b = [0u8; 4];
+    let r = i.read(&mut b);
+    assert!(r.is_ok());
+    let n = r.unwrap();
+    assert!(n <= b.len());
+    let calls = unsafe { RCB_CALLS } as usize;
+    assert!(calls >= 1 && calls < 8);
+    // expected content: call 1's bytes, then call 2's bytes, ...
+    let mut j = 0usize;
+    let mut k = 1usize;
+    while k <= calls && k < 6 {
+        let c = unsafe { RCB_COUNTS[k] } as usize;
+        let mut t = 0usize;
+        while t < c && t < 5 { assert!(j < b.len() && b[j] == k as u8); j += 1; t += 1; }
+        k += 1;
+    }
+    assert!(n == j);
+}
